@@ -127,6 +127,7 @@ func init() {
 				out = append(out, Instance{Scenario: "c02_resume", Params: mustJSON(ResumeParams{Backend: b}), Bound: 0, Shards: 2})
 			}
 			out = append(out, Instance{Scenario: "c02_readonly_dcp", Params: mustJSON(struct{}{}), Bound: 0, Note: "read-only mode through the real Dcp.Start(), also for a backend handed in with SetMetadata"})
+			out = append(out, Instance{Scenario: "c05_windowcommit", Params: mustJSON(struct{}{}), Bound: 0, Note: "acknowledgements and commits inside a rebalance window: the re-opened session requests each vBucket from exactly what the store holds then"})
 			out = append(out, Instance{Scenario: "c02_finitecoll", Params: mustJSON(struct{}{}), Bound: 0, Note: "finite mode with a collection filter: end (and the 'latest' start) are the VBUCKET's high seqno, not the streamed collection's"})
 			out = append(out, Instance{Scenario: "c02_twogroups", Params: mustJSON(struct{}{}), Bound: 0, Note: "two consumer groups in one process on one bucket: each resumes from what is persisted for IT"})
 			out = append(out, Instance{Scenario: "c15_start", Params: mustJSON(StartParams{Reset: "latest", Mode: "infinite"}), Bound: 1, Shards: 4, Note: "autoReset=latest under single start-up faults: a session that starts has requested every vBucket without a checkpoint at its current high seqno (or the start-up terminated)"})
